@@ -38,6 +38,17 @@ try:
             if v:
                 break
         meta['detected'] = any(x['n_classes'] for x in meta['checks'].values())
+        if not meta['detected']:
+            # does the check of another property catch it?  (quick tier of every other check)
+            others = {}
+            for q in ['C%02d' % i for i in range(1, 21)]:
+                if q == prop:
+                    continue
+                c = subprocess.run(['/venv/bin/python', '/verif/run.py', q, '--tier', 'quick'], env=dict(os.environ, CRYSP_TREE=d), capture_output=True, text=True)
+                v = [l for l in c.stdout.split('\n') if l.startswith('VIOLATION')]
+                if v:
+                    others[q] = [x.split('class=')[1].split(' ')[0] for x in v][:4]
+            meta['detected_by_other_properties'] = others
     meta['valid_seed'] = bool(meta.get('patch_applies') and meta.get('demo_exit_clean_tree') == 0 and meta.get('demo_exit_with_change') not in (0, None)
                               and '120 passed' in meta.get('suite_with_change', ''))
 finally:
@@ -53,4 +64,4 @@ if os.path.exists(note):
     meta['needs_to_manifest'] = open(note).read()[:1500]
 meta['what_was_run'] = 'tools/seedtest.py: scratch worktree of /repo HEAD; demo on clean tree; git apply patch; pinned suite; demo with change; run.py %s quick (then thorough if quick is silent) with CRYSP_TREE=scratch' % prop
 json.dump(meta, open(out + '/meta.json', 'w'), indent=1)
-print(json.dumps({k_: meta[k_] for k_ in ('valid_seed', 'detected', 'suite_with_change', 'demo_exit_clean_tree', 'demo_exit_with_change') if k_ in meta}), json.dumps(meta.get('checks', {}))[:600])
+print(json.dumps({k_: meta[k_] for k_ in ('valid_seed', 'detected', 'detected_by_other_properties', 'suite_with_change', 'demo_exit_clean_tree', 'demo_exit_with_change') if k_ in meta}), json.dumps(meta.get('checks', {}))[:600])
